@@ -363,16 +363,26 @@ def render_function(name, iface, rng, first=None, shape=None):
         ret = {None: None, "pass": "    pass", "None": "    return None", "param": "    return %s" % pn[0], "tuple": "    return %s, %s" % (pn[0], pn[-1]),
                "ann-literal": "    return 5"}[sh["ret"]]
     sig = ([first] if first else []) + [("%s: %s = %r" % (n, p["typ"], p["default"])) if ann else "%s=%r" % (n, p["default"]) for n, p in iface["params"].items()]
+    if sh.get("kwargs"):
+        sig.append("**kwargs")
+    # `partial`: the docstring documents only some parameters of the signature (the others come from the signature alone)
+    documented = set(pn)
+    if sh.get("partial") and len(pn) > 1:
+        documented = set(pn[::2]) if sh["partial"] == "interleaved" else set(pn[:max(1, len(pn) // 2)])
     lines = ["def %s(%s)%s:" % (name, ", ".join(sig), " -> int" if sh.get("ret") == "ann-literal" else "")]
     if doc == "one":
         lines.append('    """%s"""' % iface["doc"])
     elif doc == "full":
         lines += ['    """', "    %s" % iface["doc"], ""]
         for n, p in iface["params"].items():
+            if n not in documented:
+                continue
             lines.append("    :param %s: %s" % (n, p["doc"]))
             if rng.random() < 0.5:
                 lines.append("    :type %s: ```%s```" % (n, p["typ"]))
             lines.append("")
+        if sh.get("kwargs") == "documented":
+            lines += ["    :param kwargs: extra keyword arguments", "    :type kwargs: ```dict```", ""]
         lines.append('    """')
     if ret or doc == "none":
         lines.append(ret or "    pass")
@@ -412,7 +422,14 @@ def gen_shape(rng, kind):
     ret = rng.choice([None, "pass", "None", "param", "tuple"])
     if rng.random() < 0.04:
         ret = "ann-literal"
-    return {"doc": doc, "ann": rng.random() < 0.6, "ret": ret}
+    sh = {"doc": doc, "ann": rng.random() < 0.6, "ret": ret}
+    if doc == "full":
+        sh["partial"] = rng.choice([False, False, "prefix", "prefix", "prefix", "interleaved"])
+        x = rng.random()
+        sh["kwargs"] = "documented" if x < 0.45 else ("undocumented" if x < 0.5 else None)
+        if sh["kwargs"] or sh["partial"]:
+            sh["ann"] = True  # (an undocumented parameter without annotation has no stated type anywhere)
+    return sh
 
 
 def truth_shape(kind, text, path):
@@ -433,6 +450,11 @@ def truth_shape(kind, text, path):
         out["truth_ret"] = ("none" if not rets else "None" if v is None or (isinstance(v, ast.Constant) and v.value is None) else
                             "name" if isinstance(v, ast.Name) else "tuple" if isinstance(v, ast.Tuple) else "literal" if isinstance(v, ast.Constant) else "other")
         out["truth_retann"] = node.returns is not None
+        if node.args.kwarg is not None:
+            out["truth_kwargs"] = "documented" if d and (":param %s:" % node.args.kwarg.arg) in d else "undocumented"
+        pos = [a_.arg for a_ in node.args.posonlyargs + node.args.args + node.args.kwonlyargs if a_.arg not in ("self", "cls")]
+        if d and any((":param %s:" % n_) in d for n_ in pos) and not all((":param %s:" % n_) in d for n_ in pos):
+            out["truth_partial_doc"] = True
     return out
 
 
@@ -624,6 +646,14 @@ def truth_shape_cases():
         case("shape-class-summary-only", "class", render_class("K", ifc, rng, {"doc": "one"})),
         case("shape-function-oneline-no-annotations-return-param", "function", render_function("run_it", ifc, rng, None, {"doc": "one", "ann": False, "ret": "param"})),
         case("shape-function-oneline-return-tuple", "function", render_function("run_it", ifc, rng, None, {"doc": "one", "ann": True, "ret": "tuple"})),
+        # `**kwargs` documented, other parameters of the signature NOT documented: order must stay a, b, c, kwargs
+        case("shape-function-kwargs-documented-partial-doc", "function",
+             "def run_it(alpha: int = 5, beta: str = 'foo', rate: float = 0.5, **kwargs):\n    \"\"\"\n    The desc\n\n    :param alpha: the alpha\n\n"
+             "    :param kwargs: extra keyword arguments\n    :type kwargs: ```dict```\n    \"\"\"\n    pass\n"),
+        case("shape-function-partial-doc", "function", render_function("run_it", ifc, rng, None, {"doc": "full", "ann": True, "ret": "pass", "partial": "interleaved"})),
+        case("shape-function-partial-doc-prefix-kwargs", "function", render_function("run_it", ifc, rng, None, {"doc": "full", "ann": True, "ret": "pass", "partial": "prefix", "kwargs": "documented"})),
+        case("shape-function-kwargs-documented-all-doc", "function", render_function("run_it", ifc, rng, None, {"doc": "full", "ann": True, "ret": None, "kwargs": "documented"})),
+        case("shape-function-kwargs-undocumented", "function", render_function("run_it", ifc, rng, None, {"doc": "full", "ann": True, "ret": "pass", "kwargs": "undocumented"})),
         # shapes on which the unchanged tree aborts (findings C12-truth-*)
         case("shape-function-nodoc", "function", render_function("run_it", ifc, rng, None, {"doc": "none", "ann": True, "ret": "pass"}), runs=1),
         case("shape-function-return-annotation-literal", "function", render_function("run_it", ifc, rng, None, {"doc": "one", "ann": True, "ret": "ann-literal"}), runs=1),
@@ -1063,6 +1093,8 @@ def stdlib_iface(kind, node):
             ent(arg.arg, arg.annotation, d)
         for arg, d in zip(a.kwonlyargs, a.kw_defaults):
             ent(arg.arg, arg.annotation, d)
+        if a.kwarg is not None:
+            ent(a.kwarg.arg, None, None)  # `**kwargs` is a parameter of the interface, the last one
     else:
         for st in node.body:
             call = st.value if isinstance(st, ast.Expr) else None
@@ -1071,6 +1103,21 @@ def stdlib_iface(kind, node):
                 kw = {k.arg: k.value for k in call.keywords}
                 ent(call.args[0].value.lstrip("-"), kw.get("type"), kw.get("default"))
     return out
+
+
+def doc_first_order(kind, text, path, names):
+    """the order `merge_params` gives a function truth: the parameters its docstring documents (docstring order) first, then the
+    others in signature order, a documented `**kwargs` last"""
+    node = written_node(text, path) if text else None
+    if kind != "function" or not isinstance(node, (ast.FunctionDef, ast.AsyncFunctionDef)):
+        return None
+    d = ast.get_docstring(node, clean=False) or ""
+    import re
+
+    documented = [m for m in re.findall(r":param\s+(\w+):", d) if m in names]
+    kw = node.args.kwarg.arg if node.args.kwarg is not None else None
+    head = [n for n in documented if n != kw]
+    return head + [n for n in names if n not in documented] + ([kw] if kw in documented else [])
 
 
 def written_node(text, path):
@@ -1243,6 +1290,8 @@ def oracle_phase(chk, case, before, states, snaps):
     tshape = truth_shape(t, before[t], tpath)
     # the truth's interface read with the stdlib only: a defect of the truth's cdd parser must not cancel out on both sides
     t_iface = stdlib_iface(t, written_node(before[t], tpath)) if before[t] else []
+    _tn = written_node(before[t], tpath) if before[t] else None
+    t_kwarg = _tn.args.kwarg.arg if isinstance(_tn, (ast.FunctionDef, ast.AsyncFunctionDef)) and _tn.args.kwarg is not None else None
 
     def fail(sig, what):
         s = dict(base)
@@ -1308,9 +1357,24 @@ def oracle_phase(chk, case, before, states, snaps):
         #      an emitter that drops `= 0`, must not vanish in the comparison.  (`return_type` is the class form of a return entry.)
         if outcome in ("created", "appended", "rewritten", "method-appended-at-top-level") and t_iface:
             wi = [e for e in stdlib_iface(kind, written_node(after, path)) if not (kind == "class" and e[0] == "return_type")]
-            if [e[0] for e in wi] != [e[0] for e in t_iface]:
-                fail(dict(sig0, clause="stdlib-interface", field="names", **tshape),
-                     "%s target %s was written with parameters %s, the truth (%s) declares %s" % (kind, name, [e[0] for e in wi], t, [e[0] for e in t_iface]))
+            wn, tn = [e[0] for e in wi], [e[0] for e in t_iface]
+            if wn != tn:
+                # root-cause markers, so that the two deviations the unchanged tree has stay apart from anything else
+                diffs = []
+                kw = t_kwarg if tshape.get("truth_kwargs") == "undocumented" else None
+                if kw and kw not in wn:
+                    diffs.append("kwargs-dropped")  # an undocumented `**kwargs` never reaches the IR
+                    tn = [n_ for n_ in tn if n_ != kw]
+                if wn != tn:
+                    if sorted(wn) != sorted(tn):
+                        diffs.append("set-differs")
+                    elif wn == doc_first_order(t, before[t], tpath, tn):
+                        diffs.append("order:documented-first")  # merge_params: documented parameters first, then the signature's
+                    else:
+                        diffs.append("order:other")
+                for df in diffs:
+                    fail(dict(sig0, clause="stdlib-interface", field="names", names_diff=df, **tshape),
+                         "%s target %s was written with parameters %s, the truth (%s) declares %s" % (kind, name, wn, t, [e[0] for e in t_iface]))
             else:
                 for (pn, tt, tv), (_, wt, wv) in zip(t_iface, wi):
                     if tv is not None and wv != tv:
